@@ -98,7 +98,7 @@ def main():
     hooks = [l for l in head if l.split(" ", 1)[1].startswith("verif hooks")]
     m = {
         "version": 1,
-        "setup_cmd": "python3 vlib/build.py vh srv",
+        "setup_cmd": "python3 vlib/build.py vh srv vh-dev",
         "hooks": {
             "guard": "cfg(pytest_language_server_verif)",
             "enable": "RUSTFLAGS='--cfg pytest_language_server_verif' (set by vlib/build.py for the vh harness and for the srv build whose [[bin]] path is /repo/src/main.rs; both link /verif/shims/dashmap via [patch.crates-io])",
